@@ -28,6 +28,7 @@ KERNELS = {
     "hue_to_rgb": "hue_to_rgb",
     "update_value": "update_value",
     "from_hwb": "from_hwb",
+    "from_hsla": "from_hsla",
 }
 # kernels that cannot be called natively in isolation (nested fn): validated through the public API instead
 INDIRECT = {"update_value"}
@@ -75,7 +76,7 @@ def translate(mir):
     defines = []
     try:
         for k, name in KERNELS.items():
-            if k in ("hue_to_rgb", "from_hwb"):
+            if k in ("hue_to_rgb", "from_hwb", "from_hsla"):
                 cands = [n for n in t.fns if n.endswith("::" + k)]
                 if len(cands) != 1:
                     return None, "cannot find %s in MIR" % k
@@ -135,6 +136,11 @@ def validation_inputs(seed):
             w, b = rnd.choice([0.0, 1e-14, 5.5e-15, 100.0, 30.0]), rnd.choice([100.0, 70.0, 0.0])
         for ch in "rgb":
             ins.append(("from_hwb_" + ch, [h, w, b]))
+        s_, l_ = rnd.uniform(-0.2, 1.2), rnd.uniform(-0.2, 1.2)
+        if i % 5 == 0:
+            s_, l_ = rnd.choice([0.0, 1.0, 0.5, 0.3]), rnd.choice([0.0, 0.5, 1.0, 0.25, 0.8])
+        for ch in "rgb":
+            ins.append(("from_hsla_" + ch, [h, s_, l_]))
     for sp in (float("nan"), float("inf"), float("-inf"), 1e308, -1e308, 5e-324):
         ins.append(("fuzzy_round", [sp]) if sp == sp and abs(sp) != float("inf") else ("fuzzy_as_int", [sp]))
         ins.append(("fuzzy_as_int", [sp]))
@@ -165,6 +171,11 @@ int main(void) {
       rs_number nh = { x }, nw = { y }, nb = { z }, na = { 1.0 };
       rs_color c = KERNEL_from_hwb(nh, nw, nb, na);
       r = d2b(k[9] == 'r' ? c.f0 : (k[9] == 'g' ? c.f1 : c.f2));
+    }
+    else if (!strncmp(k, "from_hsla_", 10)) {
+      rs_number nh = { x }, ns = { y }, nl = { z }, na = { 1.0 };
+      rs_color c = KERNEL_from_hsla(nh, ns, nl, na);
+      r = d2b(k[10] == 'r' ? c.f0 : (k[10] == 'g' ? c.f1 : c.f2));
     }
     else if (!strcmp(k, "update_value")) {
       /* indirect: alpha component, max = 1, mode in a[2]; the constructor clamps alpha afterwards */
@@ -224,7 +235,7 @@ def validate(seed):
             return False, "translation of update_value disagrees with the public API: mode=%d current=%s param=%s API=%s C=%r" % (m_, a, p_, x, yc), 0
     nan = lambda h: (int(h, 16) & 0x7ff0000000000000) == 0x7ff0000000000000 and (int(h, 16) & 0xfffffffffffff) != 0
     for (k, args), x, y in zip(ins, la, lb):
-        if x != y and not ((k in ("fuzzy_round", "modulo", "hue_to_rgb") or k.startswith("from_hwb_")) and nan(x) and nan(y)):
+        if x != y and not ((k in ("fuzzy_round", "modulo", "hue_to_rgb") or k.startswith(("from_hwb_", "from_hsla_"))) and nan(x) and nan(y)):
             return False, "translation disagrees with the real function: %s%s C=%s Rust=%s" % (k, [f2h(v) for v in args], x, y), 0
     return True, "%d inputs agree (+%d update_value cases through the public API)" % (len(ins), len(upd)), len(ins) + len(upd)
 
@@ -365,11 +376,14 @@ def _finish(st):
     if not st["ready"]:
         return res
     if True:
-        for pr in props:
-            if tier not in pr.get("tiers", ("quick", "thorough")):
-                continue
-            r = run_prop(pr["name"], pr["inputs"], pr.get("unwind", 14), pr.get("timeout", {}).get(tier, 900), logdir,
-                         pr.get("extra", ()))
+        # the cbmc runs are independent single-threaded processes: up to 4 side by side
+        from concurrent.futures import ThreadPoolExecutor
+        sel = [pr for pr in props if tier in pr.get("tiers", ("quick", "thorough"))]
+        with ThreadPoolExecutor(max_workers=4) as ex:
+            futs = [ex.submit(run_prop, pr["name"], pr["inputs"], pr.get("unwind", 14), pr.get("timeout", {}).get(tier, 900), logdir,
+                              pr.get("extra", ())) for pr in sel]
+            outs = [f.result() for f in futs]
+        for pr, r in zip(sel, outs):
             if r["verdict"] == "pass" and any(v != "Satisfied" for v in r.get("covers", {}).values()):
                 r = {"verdict": "inconclusive", "reason": "vacuity: witness not reachable: %s" % r["covers"], "wall": r["wall"]}
             res["solver_s"] += r.get("solver_s", 0) or 0
